@@ -40,6 +40,7 @@ import re
 import lib
 import norm_common as nc
 import normwhole as nw
+import platform_pa as ppa
 import urlgen
 
 ID = "C04"
@@ -691,6 +692,8 @@ def ops(case):
             out.extend(nc.ops(u, case["opts"]))
             # the whole function on the string, the parser being the model's own
             out.extend(nw.norm_ops(u, case["opts"]))
+            # platform_aware=True: the same with the CONCRETE branch (Model/Platform.lean), nothing shipped
+            out.extend(ppa.norm_pa_ops(u, case["opts"], branch=False))
     return out
 
 
@@ -700,6 +703,7 @@ def impl(case):
         if _modelable(u):
             out.extend(nc.impl(u, case["opts"]))
             out.extend(nw.norm_impl(u, case["opts"]))
+            out.extend(ppa.norm_pa_impl(u, case["opts"], branch=False))
     return out
 
 
@@ -744,7 +748,7 @@ def nontrivial(case):
 
 def classify(case):
     if case["kind"] == "raw":
-        return ["corpus"] + sorted(set(nw.label(u, case["opts"]) for u in (case["u"], case["v"])))
+        return ["corpus"] + sorted(set(nw.label(u, case["opts"]) for u in (case["u"], case["v"]))) + _pa_labels((case["u"], case["v"]), case["opts"])
     v = variant(case)
     if v is None:
         return ["not-applicable"]
@@ -752,7 +756,15 @@ def classify(case):
     labs.append("composed:%d" % len(case["T"]))
     labs.append("opts:" + ("+".join(sorted(case["opts"])) or "default"))
     labs.extend(sorted(set(nw.label(u, case["opts"]) for u in v)))
+    labs.extend(_pa_labels(v, case["opts"]))
     return labs
+
+
+def _pa_labels(urls, opts):
+    """platform_aware=True: is the concrete-branch op (normalize_whole_pa) run or withheld, did the branch rewrite"""
+    if not nc.full_opts(opts)["platform_aware"]:
+        return []
+    return sorted(set(ppa.label_pa(u, opts) for u in urls if _modelable(u)))
 
 
 RULE = (
